@@ -8,6 +8,30 @@
 // CHECK, UNIQUE / PRIMARY KEY and FOREIGN KEY constraints with their
 // referential actions); every executed statement is recorded in a log.
 //
+// Result encoding (what lib/pq hands to Scan): integer kinds and serial give
+// int64; real and double precision float64; boolean bool; text string; bytea,
+// json and jsonb []byte; arrays []byte in the PostgreSQL array text format
+// ({1,2}, booleans as t/f, strings quoted when needed, NULL elements as NULL);
+// composites []byte in record text format ((1,2,3)); timestamps and dates
+// time.Time in UTC; SQL NULL nil.
+//
+// Deliberate differences with a real server, all on the strict side unless
+// noted: an argument is converted to the column type only from a short list
+// of Go types (integer kinds: int64 or a string of digits; real: float64,
+// int64 or numeric text; boolean: bool or boolean text; text: string or
+// []byte; bytea: []byte or hex/escape text; json: valid JSON text; arrays and
+// composites: their text format; date and timestamp: time.Time or ISO text),
+// so that e.g. an int64 is refused for a text column although PostgreSQL would
+// accept its text form; jsonb values are kept as given (PostgreSQL normalises
+// spacing, key order and duplicate keys); transactions are snapshots of the
+// whole database taken by Begin (no isolation between connections: a
+// Rollback restores every table to its state at Begin); RESTRICT is checked
+// like NO ACTION, at the end of the statement; uniqueness is checked against
+// the final state of an UPDATE rather than row by row. Like PostgreSQL,
+// sequence values consumed by serial columns are never given back, neither by
+// a failing statement nor by Rollback. See Options for more faithful (but off
+// by default) behaviours.
+//
 // The package only depends on the standard library.
 package minipg
 
